@@ -264,8 +264,10 @@ def run_check(mod, tier, seed):
         by_sig.setdefault(v["sig"], []).append((case, v))
     replay_paths = []
     for sig, lst in sorted(by_sig.items()):
-        case, v = min(lst, key=lambda cv: len(json.dumps(jsonable(cv[0]))))
-        replay_paths.append((sig, write_replay(prop, case, v), len(lst), v.get("msg", "")))
+        case, v = min(lst, key=lambda cv: len(json.dumps(jsonable(cv[1].get("case", cv[0])))))
+        v = dict(v)
+        rcase = v.pop("case", case)  # a violation may carry its own minimal case
+        replay_paths.append((sig, write_replay(prop, rcase, v), len(lst), v.get("msg", "")))
 
     ev = {
         "property_id": prop,
